@@ -171,6 +171,14 @@ def run(tier, seed):
     corrupt_for_demo(scen)
     out = vlib.replay(ENGINE, scen, timeout=120)
     absorb(v, out, scen)
+    # encoding is a function of the value also when several goroutines encode at once (a server answering
+    # several fetches re-encodes commits concurrently): the concurrent bytes must be the sequential bytes
+    cscen = os.path.join(vlib.sub("scn"), "wire-conc.ndjson")
+    with open(cscen, "w") as f:
+        for k in range(2 if tier == "quick" else 8):
+            f.write(json.dumps({"G": 8, "N": 12000 if tier == "quick" else 40000}) + "\n")
+    cout = vlib.replay("wireconc", cscen, nshards=2, timeout=300, env={"GOMAXPROCS": "8"})
+    vlib.absorb_replay(v, cout, "wireconc", cscen, crash_sig=lambda sc, t: "wire/concurrent-encode/crash")
     nontrivial = sum(c for k, c in out.classes.items() if k != "-")
     kinds = {}
     for k, c in out.classes.items():
